@@ -35,7 +35,7 @@ ASSUMPTIONS = [
     "every operation works on its own files, so a fix in operation j cannot legitimately change the input of operation k",
 ]
 CHAINS_ENABLED = True
-PROBES = ["shape:after-failed-fix", "shape:plugin-dirs", "shape:dirty-chain", "dirty_chain_faults_fired", "shape:chain", "history_cli_multi_invocation", "history_api_reuse", "history_with_fault", "multi_file_op", "carrier_pair_same_group", "extension_toggled", "api_after_exception"]
+PROBES = ["shape:sweep-chain", "shape:after-failed-fix", "shape:plugin-dirs", "shape:dirty-chain", "dirty_chain_faults_fired", "shape:chain", "history_cli_multi_invocation", "history_api_reuse", "history_with_fault", "multi_file_op", "carrier_pair_same_group", "extension_toggled", "api_after_exception"]
 
 
 
@@ -136,6 +136,7 @@ def _gen_api_op(rng, index, group, first):
     }
 
 
+SWEEP_FOLLOWERS = ["h_atx", "ul_star", "fence_back", "bq_starts", "ws_trailing", "in_emph_space", "lrd_use", "pr_victim", "edge_one_line", "h_setext", "ol_ordered", "in_html"]
 CHAIN_WIDTH = 10
 ALL_OPTIONAL = ["-e", "md002,md006,pml100,pml101"]
 
@@ -157,8 +158,13 @@ def chain_plan(tier):
     plan = []
     for mode in ("scan", "fix"):
         for a_index, a_name in enumerate(pool):
-            for start in range(0, len(pool), CHAIN_WIDTH):
-                plan.append((mode, a_name, pool[start : start + CHAIN_WIDTH], (a_index + start // CHAIN_WIDTH) % 2 == 1, None))
+            followers = pool
+            if tier == "quick" and mode == "fix":
+                # quick: fix-mode pairs inside one state group only (all pairs in scan mode;
+                # the thorough tier has all pairs in both modes)
+                followers = [n for n in pool if docs[n].group == docs[a_name].group]
+            for start in range(0, len(followers), CHAIN_WIDTH):
+                plan.append((mode, a_name, followers[start : start + CHAIN_WIDTH], (a_index + start // CHAIN_WIDTH) % 2 == 1, None))
     # "dirty" chains: every `a` is cut short by an injected exception in the middle
     # of its token (or line) dispatch, after all built-in rules have seen half of
     # the document; with --continue-on-error the following b must still equal its
@@ -167,9 +173,29 @@ def chain_plan(tier):
     carriers_only = [n for n in usable if n in carriers_module.CARRIERS and docs[n].tags.get("lines", 0) < 200]
     dirty_pool = carriers_only if tier == "quick" else pool
     for a_index, a_name in enumerate(carriers_only):
-        for start in range(0, len(dirty_pool), CHAIN_WIDTH):
-            phase = ("token", "line", "prov")[(a_index + start // CHAIN_WIDTH) % 3]
-            plan.append(("scan", a_name, dirty_pool[start : start + CHAIN_WIDTH], False, phase))
+        followers = dirty_pool
+        if tier == "quick":
+            # quick: followers of the same state group plus a fixed diverse set
+            followers = [n for n in carriers_only if docs[n].group == docs[a_name].group or n in SWEEP_FOLLOWERS]
+        for start in range(0, len(followers), CHAIN_WIDTH):
+            for phase in (("token", "line", "prov") if tier == "quick" else (("token", "line", "prov")[(a_index + start // CHAIN_WIDTH) % 3],)):
+                plan.append(("scan", a_name, followers[start : start + CHAIN_WIDTH], False, phase))
+    # "sweep" chains: a(t) b a(t+1) b ... - the i-th copy of the carrier is cut short at
+    # its (t+i)-th token / line, always followed by the same follower, so that EVERY
+    # dispatch ordinal of the carrier is the abort point once per follower (state that is
+    # dirty only inside one element - a heading, a fence, a list item - needs the abort
+    # to land exactly there)
+    followers = [n for n in SWEEP_FOLLOWERS if n in carriers_only]
+    if tier == "quick":
+        followers = followers[:2]
+    for a_name in carriers_only:
+        units = max(1, docs[a_name].tags.get("lines", 1))
+        for follower in followers:
+            for phase in ("token", "line"):
+                # tokens per document are roughly 3 per line; lines phase needs fewer chains
+                span = min(60, units * (4 if phase == "token" else 1) + 2)
+                for start_ordinal in range(1, span + 1, CHAIN_WIDTH):
+                    plan.append(("scan", a_name, [follower] * CHAIN_WIDTH, False, ("sweep", phase, start_ordinal)))
     return plan
 
 
@@ -211,6 +237,9 @@ def _gen_chain(tier, index):
         # token / line: exception at the last rule in dispatch order, after every
         # built-in rule has seen that token / line; prov: the parser itself fails from
         # inside its main loop, at a read of the document's middle line
+        sweep_start = None
+        if isinstance(dirty, (tuple, list)):
+            _, dirty, sweep_start = dirty
         site_name = {"token": "cb/zzz999/next_token", "line": "cb/zzz999/next_line", "prov": "prov"}[dirty]
         dry = cached_run(_history_request(sc, record_sites=True), sc["cls"])
         if done(dry):
@@ -219,9 +248,15 @@ def _gen_chain(tier, index):
                 if site[0] == site_name:
                     counts[site[1]] = max(counts[site[1]], site[2])
             a_files = [path for path in sorted(files) if labels[path] == a_name and sorted(files).index(path) % 2 == 0]
-            for path in a_files:
-                if counts.get(path):
-                    sc["plan"].append({"site": site_name, "file": path, "ord": max(1, (counts[path] + 1) // 2), "act": "raise_after" if dirty != "prov" else "raise", "exc": "RuntimeError", "op": 0})
+            for position, path in enumerate(a_files):
+                if not counts.get(path):
+                    continue
+                ordinal = max(1, (counts[path] + 1) // 2) if sweep_start is None else sweep_start + position
+                if ordinal > counts[path]:
+                    continue  # the document has fewer tokens / lines than that
+                sc["plan"].append({"site": site_name, "file": path, "ord": ordinal, "act": "raise_after" if dirty != "prov" else "raise", "exc": "RuntimeError", "op": 0})
+            if sweep_start is not None:
+                sc["shape"] = "sweep-chain"
     return sc
 
 
@@ -560,7 +595,7 @@ def evaluate(sc):
                     )
                     break
     stats["shape:" + sc["shape"]] += 1
-    if sc["shape"] == "dirty-chain":
+    if sc["shape"] in ("dirty-chain", "sweep-chain"):
         stats["dirty_chain_faults_fired"] += fired
     faults = {}
     if sc.get("plan"):
